@@ -631,3 +631,10 @@ Proof.
   { unfold idx. apply nth_error_None in L. rewrite L. reflexivity. }
   destruct k; cbn [bsplev]; rewrite E; reflexivity.
 Qed.
+
+(* zero on every span that is not one of its k spans - in particular at the knot t_{i+k} itself *)
+Lemma bsplev_support_span k n t j x i : admissible k n t -> in_span k n t j x -> (i < n)%nat ->
+  ~ (i <= j < i + k)%nat -> bsplev x i k t None = Ok 0.
+Proof.
+  intros A S Hi Hj. rewrite (bsplev_value k n t j x i A S Hi). f_equal. apply P_support. exact Hj.
+Qed.
